@@ -24,7 +24,7 @@ from . import exprsem, relmodel
 from .relmodel import Tab
 from .symx import SymInt, Skip, zint
 
-UNARY = ("calc", "proj", "sel", "dedup", "sort", "slice", "mat", "xfer", "tag", "proc", "cust", "xferp", "twice")
+UNARY = ("calc", "proj", "sel", "dedup", "sort", "slice", "mat", "xfer", "tag", "proc", "cust", "xferp", "twice", "tagp")
 
 
 @dataclasses.dataclass(frozen=True)
@@ -197,7 +197,7 @@ def expression_history(env, *nodes):
                 pass
 
 
-_OPS = ("leaf", "calc", "proj", "sel", "dedup", "sort", "slice", "chain", "join", "mat", "xfer", "tag", "proc", "cust", "xferp", "twice")
+_OPS = ("leaf", "calc", "proj", "sel", "dedup", "sort", "slice", "chain", "join", "mat", "xfer", "tag", "proc", "cust", "xferp", "twice", "tagp")
 _USER_MARKER = []
 _USER_FILTER = []
 _HENGINE = []
@@ -404,6 +404,11 @@ def _build(node, env, memo):
         r = env.engines[node[2]].transfer(t, payload=pl)
     elif op == "tag":
         r = user_marker_class()(target=build(node[1], env, memo))
+    elif op == "tagp":
+        # a user-defined marker to which its owner attached a (lazy) payload: what the iteration engine hands out for the target
+        t = build(node[1], env, memo)
+        r = user_marker_class()(target=t)
+        r.attach_payload(t.engine.execute(t))
     elif op == "twice":
         # the operation-level entry point with one operation instance used for both applications (operations are values: callers
         # keep and re-use them)
@@ -449,7 +454,7 @@ def _sem_seq(node, env, prefer):
         if node[1] in DECLARED_COLS and set(t.cols) > set(DECLARED_COLS[node[1]]):
             t = relmodel.project(t, DECLARED_COLS[node[1]])  # the table offers more columns than the relation has
         return t
-    if op in ("mat", "xfer", "tag", "proc", "cust", "xferp"):
+    if op in ("mat", "xfer", "tag", "proc", "cust", "xferp", "tagp"):
         return _sem_seq(node[1], env, prefer)
     if op == "chain":
         a, b = _sem_seq(node[1], env, prefer), _sem_seq(node[2], env, prefer)
@@ -670,7 +675,7 @@ def pyeval(node, leafrows, bind, tags, prefer="l"):
         if node[1] in DECLARED_COLS and all(set(r) > set(DECLARED_COLS[node[1]]) for r in leafrows[node[1]]):
             return [{c: r[c] for c in DECLARED_COLS[node[1]]} for r in leafrows[node[1]]]
         return [dict(r) for r in leafrows[node[1]]]
-    if op in ("mat", "xfer", "tag", "proc", "cust", "xferp"):
+    if op in ("mat", "xfer", "tag", "proc", "cust", "xferp", "tagp"):
         return pyeval(node[1], leafrows, bind, tags, prefer)
     if op == "chain":
         return pyeval(node[1], leafrows, bind, tags, prefer) + pyeval(node[2], leafrows, bind, tags, prefer)
@@ -746,6 +751,8 @@ def fmt(node):
         return f"{fmt(node[1])}.to[{node[2]}]"
     if op == "tag":
         return f"{fmt(node[1])}.tag"
+    if op == "tagp":
+        return f"{fmt(node[1])}.tag(with lazy payload)"
     if op == "xferp":
         return f"{fmt(node[1])}.to[{node[2]} with payload]"
     if op == "proc":
@@ -820,7 +827,7 @@ def cols_of(node, leafcols):
         return cols_of(expand_twice(node), leafcols)
     if op == "leaf":
         return frozenset(leafcols[node[1]])
-    if op in ("mat", "xfer", "tag", "proc", "cust", "xferp"):
+    if op in ("mat", "xfer", "tag", "proc", "cust", "xferp", "tagp"):
         return cols_of(node[1], leafcols)
     if op == "chain":
         a, b = cols_of(node[1], leafcols), cols_of(node[2], leafcols)
